@@ -328,11 +328,28 @@ func (c *Core) ngSetup(p *ngap.PDU) {
 	for i := 1; i < a.NSlices; i++ {
 		slices = append(slices, ngap.SNSSAI{SST: byte(i + 1)})
 	}
+	// an AMF may serve several PLMNs: the gNB's own one need be neither the first nor the last
+	var guamis []ngap.ServedGUAMI
+	var plmns []ngap.PLMNSupport
+	other := func(l []string) {
+		for _, p := range l {
+			if len(p) < 5 {
+				continue
+			}
+			enc := nas.EncodePLMN(p[:3], p[3:])
+			guamis = append(guamis, ngap.ServedGUAMI{GUAMI: ngap.GUAMI{PLMN: enc, Region: byte(a.Region), SetID: uint16(a.SetID), Pointer: byte(a.Pointer)}})
+			plmns = append(plmns, ngap.PLMNSupport{PLMN: enc, Slices: []ngap.SNSSAI{{SST: 1}}})
+		}
+	}
+	other(a.PLMNsBefore)
+	guamis = append(guamis, ngap.ServedGUAMI{GUAMI: guami, Backup: a.Backup})
+	plmns = append(plmns, ngap.PLMNSupport{PLMN: c.PLMN, Slices: slices})
+	other(a.PLMNsAfter)
 	resp := &ngap.PDU{Kind: ngap.Successful, Proc: ngap.ProcNGSetup, Crit: ngap.Reject, IEs: []ngap.IE{
 		{ngap.IDAMFName, ngap.Reject, must(ngap.EncPrintable(a.Name))},
-		{ngap.IDServedGUAMIList, ngap.Reject, must(ngap.EncServedGUAMIList([]ngap.ServedGUAMI{{GUAMI: guami, Backup: a.Backup}}))},
+		{ngap.IDServedGUAMIList, ngap.Reject, must(ngap.EncServedGUAMIList(guamis))},
 		{ngap.IDRelativeAMFCapacity, ngap.Ignore, must(ngap.EncRelativeAMFCapacity(a.Capacity))},
-		{ngap.IDPLMNSupportList, ngap.Reject, must(ngap.EncPLMNSupportList([]ngap.PLMNSupport{{PLMN: c.PLMN, Slices: slices}}))},
+		{ngap.IDPLMNSupportList, ngap.Reject, must(ngap.EncPLMNSupportList(plmns))},
 	}}
 	c.out("NGSetupResponse", -1, resp)
 }
@@ -845,11 +862,9 @@ func (c *Core) authResponse(ue *UE, env nas.Envelope) {
 	}
 	smc := nas.SecurityModeCommand(ue.EncAlg, ue.IntAlg, byte(ue.P.NgKSI), ue.SecCap, o)
 	msg := c.protectDL(ue, 3, smc)
-	c.out("DownlinkNASTransport/SecurityModeCommand", ue.Ordinal, &ngap.PDU{Kind: ngap.Initiating, Proc: ngap.ProcDownlinkNASTransport, Crit: ngap.Ignore, IEs: []ngap.IE{
-		{ngap.IDAMFUENGAPID, ngap.Reject, ngap.EncAMFUENGAPID(ue.AmfID)},
-		{ngap.IDRANUENGAPID, ngap.Reject, ngap.EncRANUENGAPID(ue.RanID)},
-		{ngap.IDNASPDU, ngap.Reject, ngap.EncOctetString(msg)},
-	}})
+	smcPDU := c.dlNAS(ue, msg)
+	smcPDU.IEs = append(smcPDU.IEs, c.dlOptIEs(ue.P.SMCNgapOpt)...)
+	c.out("DownlinkNASTransport/SecurityModeCommand", ue.Ordinal, smcPDU)
 }
 
 func (c *Core) smcComplete(ue *UE, env nas.Envelope) {
@@ -1068,7 +1083,9 @@ func (c *Core) protectedUplink(ue *UE, env nas.Envelope) {
 			copy(g.TMSI[:], mustHex(ue.P.TMSI, 4, "tmsi"))
 		}
 		msg := c.protectDL(ue, 2, nas.ConfigurationUpdateCommand(ind, g))
-		c.out("DownlinkNASTransport/ConfigurationUpdateCommand", ue.Ordinal, c.dlNAS(ue, msg))
+		cucPDU := c.dlNAS(ue, msg)
+		cucPDU.IEs = append(cucPDU.IEs, c.dlOptIEs(ue.P.CUCNgapOpt)...)
+		c.out("DownlinkNASTransport/ConfigurationUpdateCommand", ue.Ordinal, cucPDU)
 	case nas.MTULNASTransport:
 		c.ulNASTransport(ue, u)
 	case nas.MTDeregistrationRequestUE:
@@ -1564,7 +1581,9 @@ func (c *Core) deregistration(ue *UE, u *nas.Uplink) {
 	ue.State = StDeregPending
 	ue.SessActive = false
 	msg := c.protectDL(ue, 2, nas.DeregistrationAccept())
-	c.out("DownlinkNASTransport/DeregistrationAccept", ue.Ordinal, c.dlNAS(ue, msg))
+	daPDU := c.dlNAS(ue, msg)
+	daPDU.IEs = append(daPDU.IEs, c.dlOptIEs(ue.P.DeregNgapOpt)...)
+	c.out("DownlinkNASTransport/DeregistrationAccept", ue.Ordinal, daPDU)
 	rel := &ngap.PDU{Kind: ngap.Initiating, Proc: ngap.ProcUEContextRelease, Crit: ngap.Reject, IEs: []ngap.IE{
 		{ngap.IDUENGAPIDs, ngap.Reject, must(ngap.EncUENGAPIDs(ue.AmfID, ue.RanID, ue.P.IDPairInRel))},
 		{ngap.IDCause, ngap.Ignore, must(ngap.EncCause(ngap.Cause{Group: 2, Value: 2}))},
